@@ -83,6 +83,8 @@ BodyBytes(b, i) ==
 (***************************************************************************)
 (* Field domains                                                           *)
 (***************************************************************************)
+\* a zero-padded non-zero number ("0100"): the property does not say whether it names the number or is foreign text
+Padded(v) == Len(v) > 1 /\ AllDigits(v) /\ v[1] = 48 /\ \E i \in 1..Len(v) : v[i] # 48
 VersionClass1(v) ==    \* "ok" | "bad" | "open"
   IF v = <<>> \/ ~AllDigits(v) THEN "bad"
   ELSE IF Len(v) > 3 THEN "bad"
@@ -122,6 +124,7 @@ RefParse1(b, p0) ==
                  encoding |-> val(5), charset |-> val(6), compression |-> val(7), oldfileuid |-> val(8),
                  newfileuid |-> SubSeq(t, us, ue - 1)] IN
        IF ue <= asciiEnd /\ t[ue] # 60 /\ ~IsWS(t[ue]) THEN Refuse("junk after NEWFILEUID")
+       ELSE IF Padded(f.ofxheader) \/ Padded(f.version) THEN Unjudged("zero-padded number")
        ELSE IF VersionClass1(f.version) = "open" /\ Valid1([f EXCEPT !.version = <<49, 48, 50>>]) THEN Unjudged("v1 version outside 1xx")
        ELSE IF ~Valid1(f) THEN Refuse("field outside its domain")
        ELSE LET bb == BodyBytes(b, ue) IN
@@ -159,7 +162,8 @@ RefParse2(b, p0) ==
                       IF ~StartsAt(t, c, PIEND) THEN Refuse("OFX declaration not closed")
                       ELSE LET f == [ofxheader |-> a.vals[1], version |-> a.vals[2], security |-> a.vals[3],
                                      oldfileuid |-> a.vals[4], newfileuid |-> a.vals[5]] IN
-                           IF ~Valid2(f) THEN Refuse("field outside its domain")
+                           IF Padded(f.ofxheader) \/ Padded(f.version) THEN Unjudged("zero-padded number")
+                           ELSE IF ~Valid2(f) THEN Refuse("field outside its domain")
                            ELSE LET bb == BodyBytes(t, c + 2) IN
                                 IF ~bb.ok THEN Unjudged("no body")
                                 ELSE [st |-> "ok", kind |-> 2, f |-> f, body |-> bb.bytes]
